@@ -133,6 +133,11 @@ def check(run, prog, tier):
     effs = cx.effects(cl.qual, ANN)
     uns = [e for e in effs if e.kind == "notify" and e.what == "unsubscribed"]
     run.ob("H1", f"{cl.qual}:reaches-unsubscribed", bool(uns), loc(cl), f"connection loss reaches client_unsubscribed ({len(uns)} site(s))")
+    pcl = cx.m("sd.ServiceDiscoveryProtocol", "connection_lost")
+    uns2 = [e for e in cx.effects(pcl.qual, "sd.ServiceDiscoveryProtocol") if e.kind == "notify" and e.what == "unsubscribed"]
+    run.ob("H1", f"{pcl.qual}:reaches-unsubscribed", bool(uns2), loc(pcl),
+           f"connection loss at the SD endpoint reaches client_unsubscribed ({len(uns2)} site(s))" if uns2 else
+           "BROKEN LINK: connection loss at the SD endpoint never reaches the announcer's subscriptions")
 
     # ---- K1 the record names the subscriber's endpoints: from_subscribe_entry puts exactly the endpoint options of the entry
     # into `endpoints` (part of the identity, where notifications go) and every other option into `options`
